@@ -117,11 +117,46 @@ func (p *pool) write(f []string) bool {
 		p.get(atoi(f[1])).Apply(ds.NewSetMutations(parseInts(f[2])...).WithDeletedElements(ds.NewSet(parseInts(f[3])...)))
 	case "replace":
 		p.get(atoi(f[1])).Replace(ds.NewSet(parseInts(f[2])...))
+	case "replaceset": // the argument is another set of the pool, the set itself, or (trailing "ro") its read-only view
+		if len(f) > 3 && f[3] == "ro" {
+			p.get(atoi(f[1])).Replace(p.get(atoi(f[2])).ReadOnly())
+		} else {
+			p.get(atoi(f[1])).Replace(p.get(atoi(f[2])))
+		}
+	case "addall":
+		p.get(atoi(f[1])).AddAll(p.get(atoi(f[2])))
+	case "delall":
+		p.get(atoi(f[1])).DeleteAll(p.get(atoi(f[2])))
+	case "replacemut": // the argument set is written (x added) right after Replace has read it
+		arg := p.get(atoi(f[2]))
+		if f[1] == f[2] {
+			return false // a writer of the replaced set itself waits for Replace to finish: not expressible by the view
+		}
+		p.get(atoi(f[1])).Replace(&mutatedAfterRead{ReadableSet: arg, after: func() { arg.Add(atoi(f[3])) }})
 	default:
 		return false
 	}
 
 	return true
+}
+
+// mutatedAfterRead is a view of a set that is written by "somebody else" right after its first listing was taken: it
+// stands for a concurrent writer of the argument of Replace.  A Replace that works on one private snapshot of its
+// argument does not notice; one that reads the argument twice stores what it did not report.
+type mutatedAfterRead struct {
+	ds.ReadableSet[int]
+	after func()
+	done  bool
+}
+
+func (m *mutatedAfterRead) ToSlice() []int {
+	out := m.ReadableSet.ToSlice()
+	if !m.done {
+		m.done = true
+		m.after()
+	}
+
+	return out
 }
 
 // endregion
